@@ -392,9 +392,9 @@ PROPS["C01"]["level_text"] = ("Partial proof: the symbol-level half of the round
 PROPS["C01"]["explanation"] += (" mixed_roundtrip (DM/Props/C01.lean): for every plan over ASCII, C40, Text, X12 and Base 256 in which no latch to a non-ASCII mode is scheduled for the last four"
     " characters, whatever the encoder model returns decodes to the message (invariant of the encoder's main loop - decoder model and encoder model in step - preserved by every mode encoder started at any"
     " position with any plan, including planned switches inside handle_end / write_length). The sweep reports how many of the optimiser's plans satisfy the side condition"
-    " (input_distribution: roundtrip_theorem_*; quick run: 7221 of 9469 successful encodings by mixed_roundtrip, 822 more by the single-mode theorems, 913 have macro/FNC1/ECI prefix codewords,"
-    " 492 mix EDIFACT with other modes, 21 have a late latch).")
-PROPS["C01"]["unproved"] = ["data-level round trip for plans that mix EDIFACT with other modes, that latch into a non-ASCII mode within the last four characters, or that follow macro / FNC1 / ECI prefix codewords"
+    " (input_distribution: roundtrip_theorem_*; quick run: 7973 of 9469 successful encodings by mixed_roundtrip / macro_roundtrip / fnc1_roundtrip, 822 more by the single-mode theorems,"
+    " 612 mix EDIFACT with other modes, 62 have a late latch).")
+PROPS["C01"]["unproved"] = ["data-level round trip for plans that mix EDIFACT with other modes or latch into a non-ASCII mode within the last four characters (7 % of the optimiser's plans in the sweep), and behind ECI designators"
     " (proved: mixed_roundtrip for all other plans, and the six single-mode plan shapes)"]
 PROPS["C01"]["level_text"] = ("Partial proof: the symbol-level half of the round trip is a theorem for all sizes and contents; the data-level half is a theorem for every plan over ASCII/C40/Text/X12/Base 256"
     " without a late non-ASCII latch and for the six single-mode plans (all messages, all symbol lists, every end-of-data form, all padding); for the remaining plan shapes it is exploration with a specification oracle.")
